@@ -66,6 +66,17 @@ fn strat_nb(variant: Variant, nmax: usize) -> BoxedStrategy<NbCase> {
             classes.sort_by(|a, b| a.partial_cmp(b).unwrap());
             classes.dedup();
             let binarize = if variant == Variant::Bernoulli { if x.iter().flatten().all(|v| *v == 0.0 || *v == 1.0) { if thr > 0.0 { None } else { Some(0.0) } } else { Some(thr * 0.5) } } else { None };
+            if variant == Variant::Gaussian && thr > 0.4 {
+                // well-separated class layout (every other Gaussian case): class c is shifted by 100 c in every feature,
+                // 40+ per-class standard deviations apart, so that recombined / perturbed query rows lie far from every
+                // class centre (joint densities far below the smallest positive double; the log-scores stay finite)
+                for i in 0..n {
+                    let c = classes.iter().position(|v| *v == y[i]).unwrap() as f64;
+                    for v in x[i].iter_mut() {
+                        *v += 100.0 * c;
+                    }
+                }
+            }
             if variant == Variant::Gaussian && !degenerate {
                 // per-class variance > 0 by construction: give every class a second, different row
                 let mut extra_x = vec![];
@@ -258,7 +269,10 @@ fn check_nb(case: &NbCase, ctx: &mut Ctx) -> Result<(), Fail> {
                     let mu = crate::oracle::mean(&col);
                     let var = crate::oracle::var_pop(&col);
                     ctx.bound(&format!("{}/theta", tag), (s.theta[c][j] - mu).abs(), 1e-9 * (mu.abs() + 1.0))?;
-                    ctx.bound(&format!("{}/var", tag), (s.var[c][j] - var).abs(), 1e-9 * (var + 1e-3))?;
+                    // the library's per-class variance is MatrixStats::var, the one-pass formula of C03's known finding:
+                    // its error 8 n eps E[x^2] is admitted here (it matters only for the shifted class layout)
+                    let ex2 = col.iter().map(|v| v * v).sum::<f64>() / col.len() as f64;
+                    ctx.bound(&format!("{}/var", tag), (s.var[c][j] - var).abs(), 1e-9 * (var + 1e-3) + 8.0 * col.len() as f64 * f64::EPSILON * ex2)?;
                 }
             }
             let (theta, var, pri) = (s.theta.clone(), s.var.clone(), s.priors.clone());
@@ -385,7 +399,7 @@ pub fn property() -> Property {
     Property {
         id: "C11",
         quick_mult: 80,
-        rule: "training sets of 2..80 (quick) / 120 (thorough) rows, 1..8 features, 2..5 classes with skewed frequencies and arbitrary integer label values (negative, gaps; categorical: 0..max with possibly empty classes); real features with positive per-class variance by construction (Gaussian; a low-weight degenerate class of cases keeps zero variances), counts 0..20 (multinomial), 0/1 or thresholded reals (Bernoulli), codes 0..5 (categorical); alpha in 0.05..5; optional normalised user priors; queries = all training rows + rows recombined feature-wise from training values + a perturbed row. non-trivial = >= 3 classes with unequal counts; distinct = distinct serialised case",
+        rule: "training sets of 2..80 (quick) / 120 (thorough) rows, 1..8 features, 2..5 classes with skewed frequencies and arbitrary integer label values (negative, gaps; categorical: 0..max with possibly empty classes); real features with positive per-class variance by construction (Gaussian; every other case with classes 40+ standard deviations apart; a low-weight degenerate class of cases keeps zero variances), counts 0..20 (multinomial), 0/1 or thresholded reals (Bernoulli), codes 0..5 (categorical); alpha in 0.05..5; optional normalised user priors; queries = all training rows + rows recombined feature-wise from training values + a perturbed row. non-trivial = >= 3 classes with unequal counts; distinct = distinct serialised case",
         assumptions: vec![
             "Gaussian predict on a class with zero variance in some feature is outside the domain (0/0 likelihood); such cases only have their statistics checked".into(),
             "the MAP oracle recomputes the class scores from the statistics the model reports, with the documented formulas, and accepts any class within 1e-9 of the maximum".into(),
